@@ -368,3 +368,18 @@ except ImportError:
 
 def replay_file(doc):
     return {"error": "re-run ./check C17 to regenerate and replay this obligation", "violates": None, "stored": doc.get("inputs")}
+
+
+def replay_known(entry):
+    w = entry.get("replay")
+    if w == "merge-attributes-tuple":
+        try:
+            r = H.merge_attributes({}, {"k": ("a",)})
+            return r != {"k": ["a"]}
+        except Exception:
+            return True
+    if w == "merge-attributes-shared-list":
+        L = []
+        r = H.merge_attributes({"j": "b"}, {"j": L, "k": L})
+        return r.get("k") != []
+    return None
